@@ -23,6 +23,7 @@ EXPLANATION = (
     "sequences driving the pairing are order-tainted unless they pass sorted()/sort(); one next() on the cycle "
     "outside the search loop; generate_assignments keys blob and lookup by the same member id."
 )
+SHARED = [('C05', ['R3'], "each member decodes from the leader's encoded assignment exactly what was encoded (blob encoder/decoder agree)")]
 ASSUMPTIONS = ["itertools.cycle yields its elements round-robin; sorted() is deterministic for str/int keys"]
 PROTO = "_group:_ConsumerProtocol"
 
